@@ -17,6 +17,13 @@ type Triple struct {
 }
 
 func Make(r *rand.Rand, h, hf int, idx uint32, declared int, msgLen int) Triple {
+	return MakeRootDelta(r, h, hf, idx, declared, msgLen, nil)
+}
+
+// MakeRootDelta: as Make, but the public key carries root XOR delta and the signer (who holds the secret)
+// computes the message hash under THAT root: everything is consistent except that the path does not lead to
+// the root in the public key. With delta = nil the triple is valid.
+func MakeRootDelta(r *rand.Rand, h, hf int, idx uint32, declared int, msgLen int, delta []byte) Triple {
 	skSeed, skPRF, pubSeed := make([]byte, 32), make([]byte, 32), make([]byte, 32)
 	r.Read(skSeed)
 	r.Read(skPRF)
@@ -28,6 +35,9 @@ func Make(r *rand.Rand, h, hf int, idx uint32, declared int, msgLen int) Triple 
 	r.Read(auth)
 	root := make([]byte, 32)
 	xmss.VerifValidateAuthPath(f, root, leaf, idx, auth, uint32(h), pubSeed)
+	for i := range delta {
+		root[i] ^= delta[i]
+	}
 	var pk [67]uint8
 	pk[0] = uint8(hf)
 	pk[1] = uint8(declared/2) & 0x0f
